@@ -196,7 +196,9 @@ def fractions(chk, tier, seed, rnd):
         # unary operations, powers, rounding, equality, modulo
         k = j["_k"]
         desc = "%d/%d" % (n1, d1)
-        if parts["p"][0] is None:
+        if n1 == 0 and k == 0:
+            pass        # 0 ** 0: an error value for ints (std/int.md); std/fraction.md does not say - left open
+        elif parts["p"][0] is None:
             if not (n1 == 0 and k < 0):
                 chk.violation("(%s) ** %d is not a fraction: %s" % (desc, k, v["p"]), {"kind": "fraction", "source": j["src"]}, finding_key="fraction:fpow")
         elif n1 == 0 and k < 0:
